@@ -7,8 +7,8 @@ from .base import Prop, Ground
 from . import lazycommon as lc
 
 # calls a lazy source may flow into without being forced (they keep or wrap the iterator, or only look at its type)
-NON_FORCING = {"iterable", "vy_type", "isinstance", "iter", "next", "safe_apply", "map", "LazyList", "type", "vy_zip", "deep_copy", "lazylist", "enumerate", "zip"}
-WRAPPERS = {"iterable", "iter", "map", "LazyList", "deep_copy", "enumerate", "zip"}  # calls whose result still is (a view of) the source
+NON_FORCING = {"iterable", "vy_type", "isinstance", "iter", "next", "safe_apply", "map", "filter", "LazyList", "type", "vy_zip", "deep_copy", "lazylist", "enumerate", "zip"}
+WRAPPERS = {"iterable", "iter", "map", "filter", "LazyList", "deep_copy", "enumerate", "zip"}  # calls whose result still is (a view of) the source
 # (function key, parameters that carry the lazy source, allowed textual exceptions)
 LAZY_SOURCES = [
     ("vyxal/elements.py::vy_map", ["lhs", "rhs"], set()),
@@ -22,9 +22,10 @@ LAZY_SOURCES = [
     ("vyxal/elements.py::insert_or_map_nth", ["lhs"], {"lhs[:int(rhs)]", "lhs[int(rhs):]"}),  # both in the branch `vy_type(lhs) is str`
     # the analysis is per function, not per overload: the forcing uses of the overloads that are NOT lazy transformations
     # (length comparison of two finite values, splitting a string, chunk sizes given as a list) are listed textually
+    ("vyxal/elements.py::vy_filter", ["lhs", "rhs"], {"''.join((elem for elem in lhs if elem not in rhs))"}),  # overload (str, str)
     ("vyxal/elements.py::overlapping_groups", ["lhs"], {"len(iterable(lhs, ctx=ctx))"}),  # overload (any, any): len(a) == len(b)
     ("vyxal/elements.py::split_keep", ["lhs", "rhs"], {"re.split(f'({re.escape(vy_str(rhs, ctx=ctx))})', lhs)", "vy_str(rhs, ctx=ctx)"}),  # overload (str, any)
-    ("vyxal/elements.py::wrap", ["lhs", "rhs"], {"all((isinstance(x, int) for x in rhs))", "comprehension over rhs", "index(iterable(lhs, ctx=ctx), [slice_start, slice_start + pos], ctx)", "lhs.partition(rhs)"}),  # chunk sizes as a list; (str, str)
+    ("vyxal/elements.py::wrap", ["lhs", "rhs"], {"all((isinstance(x, int) for x in rhs))", "index(iterable(lhs, ctx=ctx), [slice_start, slice_start + pos], ctx)", "lhs.partition(rhs)"}),  # chunk sizes as a list; (str, str)
 ]
 
 
@@ -72,9 +73,11 @@ def forcing_uses(fnode, sources, allowed):
         elif isinstance(x, ast.Subscript) and isinstance(x.value, ast.Name) and x.value.id in tainted and isinstance(x.ctx, ast.Load):
             if ast.unparse(x) not in allowed and not isinstance(x.slice, ast.Constant):
                 bad.append(ast.unparse(x))
-        elif isinstance(x, ast.comprehension) and isinstance(x.iter, ast.Name) and x.iter.id in tainted:
-            if "comprehension over " + x.iter.id not in allowed:
-                bad.append("comprehension over " + x.iter.id)
+        elif isinstance(x, (ast.ListComp, ast.SetComp, ast.DictComp)):
+            # an eager comprehension over the source forces it; a generator expression does not (what consumes it is a call, judged above)
+            for gen_ in x.generators:
+                if isinstance(gen_.iter, ast.Name) and gen_.iter.id in tainted and "comprehension over " + gen_.iter.id not in allowed:
+                    bad.append("comprehension over " + gen_.iter.id)
         elif isinstance(x, ast.Starred) and isinstance(x.value, ast.Name) and x.value.id in tainted:
             bad.append("*" + x.value.id)
     return sorted(set(bad))
